@@ -9,6 +9,11 @@ fn main() {
     match args[1].as_str() {
         "dump" => {
             let mut w = std::io::BufWriter::new(std::fs::File::create(&args[2]).unwrap());
+            // VERIF_ORDER=reverse: the same calls in the opposite order (what a type returns must not depend on
+            // what was asked of other types before)
+            if std::env::var("VERIF_ORDER").as_deref() == Ok("reverse") {
+                entries.reverse();
+            }
             for e in &entries {
                 let samples: Vec<serde_json::Value> = (e.samples)()
                     .into_iter()
